@@ -191,6 +191,25 @@ def parseKeyMask? (s : String) : Option Input :=
     if k < 18 then some (.key k (← parseMask? m)) else none
   | _ => none
 
+/-- a field of a preset: `<k>:<m>` key, `y<k>:<m>` key carrying its own `SwizzleAxis::YXZ`, `s0|s1` nested stick preset,
+    `x<axis>` gamepad axis, `b<button>` gamepad button -/
+inductive FieldSpec where
+  | plain (i : Input) | swz (i : Input) | stick (right : Bool)
+  deriving Repr
+
+def parseField? (s : String) : Option FieldSpec :=
+  match s.toList with
+  | 'y' :: rest => (parseKeyMask? (String.ofList rest)).map .swz
+  | ['s', '0'] => some (.stick false)
+  | ['s', '1'] => some (.stick true)
+  | 'x' :: rest => do
+    let x ← (String.ofList rest).toNat?
+    if x < 4 then some (.plain (.padAxis x)) else none
+  | 'b' :: rest => do
+    let b ← (String.ofList rest).toNat?
+    if b < 8 then some (.plain (.padBtn b)) else none
+  | _ => (parseKeyMask? s).map .plain
+
 def parseOp? : List String → Option Op
   | ["spawn", e] => do some (.spawn (← e.toNat?))
   | ["insert", e, c, v] => do
@@ -214,7 +233,7 @@ inductive Cmd where
   | ui (u : Nat) (st : Option Bool) | dt (q : Rat) | speed (q : Rat) | pause (b : Bool) | inject
   | react (f k : Nat) (o : Op) | post (o : Op) | frame | op (o : Op)
   | route (r : Nat) | emod (id : Nat) (m : ModSpec) | econd (id : Nat) (c : CondSpec)
-  | presetCardinal (n e s w : Input) | presetBidir (p n : Input) | presetStick (right : Bool)
+  | presetCardinal (n e s w : FieldSpec) | presetBidir (p n : FieldSpec) | presetStick (right : Bool)
   | uConvert (v : Value) (d : Dim) | uAsBool (v : Value) | uActuated (v : Value) (q : Rat)
   | uAs1 (v : Value) | uAs2 (v : Value) | uAs3 (v : Value) | uZero (d : Dim)
   | uMod (m : ModSpec) | uCond (c : CondSpec) | uAct (a : Nat) (st : AState) | uTick (d sp : Rat)
@@ -268,8 +287,8 @@ def parseCmd? : List String → Option Cmd
   | "emod" :: id :: spec => do some (.emod (← id.toNat?) (← parseMod? spec))
   | "econd" :: id :: spec => do some (.econd (← id.toNat?) (← parseCond? spec))
   | ["preset", "cardinal", n, e, s, w] => do
-    some (.presetCardinal (← parseKeyMask? n) (← parseKeyMask? e) (← parseKeyMask? s) (← parseKeyMask? w))
-  | ["preset", "bidir", p, n] => do some (.presetBidir (← parseKeyMask? p) (← parseKeyMask? n))
+    some (.presetCardinal (← parseField? n) (← parseField? e) (← parseField? s) (← parseField? w))
+  | ["preset", "bidir", p, n] => do some (.presetBidir (← parseField? p) (← parseField? n))
   | ["preset", "stick", side] => do some (.presetStick (← parseBool? side))
   | "react" :: f :: k :: op => do
     let o ← parseOp? op
@@ -308,9 +327,12 @@ def showDelivery (d : Delivery) : String :=
     ++ " " ++ showValue d.value ++ " " ++ showOptRat d.elapsed ++ " " ++ showOptRat d.fired
 
 /-- preset expansions go through the binding-set model (`BSet.bindings`, C19) -/
-def cardinalSet (n e s w : Input) : BSet :=
-  .cardinal (.single { input := n }) (.single { input := e }) (.single { input := s }) (.single { input := w })
-def bidirSet (p n : Input) : BSet := .bidir (.single { input := p }) (.single { input := n })
+def FieldSpec.toBSet : FieldSpec → BSet
+  | .plain i => .single { input := i }
+  | .swz i => .single (BSet.withMods { input := i } [BSet.swzYXZ])
+  | .stick r => .stick r
+def cardinalSet (n e s w : FieldSpec) : BSet := .cardinal n.toBSet e.toBSet s.toBSet w.toBSet
+def bidirSet (p n : FieldSpec) : BSet := .bidir p.toBSet n.toBSet
 
 def showInv : Inv → String
   | .cond id v out _ => "inv " ++ toString id ++ " " ++ showValue v ++ " " ++ showState out
